@@ -19,26 +19,31 @@ NErr(why) == [ok |-> FALSE, why |-> why, labels |-> <<>>, next |-> -1]
 NOk(labels, next) == [ok |-> TRUE, why |-> "", labels |-> labels, next |-> next]
 
 \* pos: read position; size: wire bytes of the labels read so far (sum of 1+len);
-\* hops: pointers followed; next: resume cursor once fixed by the first pointer, else -1
-RECURSIVE DecodeFrom(_, _, _, _, _, _)
-DecodeFrom(b, pos, labels, size, hops, next) ==
-  IF pos >= Len(b) THEN NErr("truncated")
+\* hops: pointers followed; next: resume cursor once fixed by the first pointer, else -1.
+\* hi: the end of the enclosing element (RDLENGTH span or message): the in-place bytes of
+\* the name, i.e. everything read before the first pointer is followed, must end by hi;
+\* after a pointer the decoder may read anywhere inside the message.
+RECURSIVE DecodeFrom(_, _, _, _, _, _, _)
+DecodeFrom(b, hi, pos, labels, size, hops, next) ==
+  LET lim == IF next = -1 THEN hi ELSE Len(b) IN
+  IF pos >= lim THEN NErr("truncated")
   ELSE LET c == b[pos + 1] IN
     IF c = 0 THEN NOk(labels, IF next = -1 THEN pos + 1 ELSE next)
     ELSE IF c >= 192 THEN
-      IF pos + 1 >= Len(b) THEN NErr("truncated")
+      IF pos + 1 >= lim THEN NErr("truncated")
       ELSE LET target == (c - 192) * 256 + b[pos + 2] IN
         IF target >= Len(b) THEN NErr("pointer-outside")
         ELSE IF hops >= Len(b) THEN NErr("cycle")
-        ELSE DecodeFrom(b, target, labels, size, hops + 1, IF next = -1 THEN pos + 2 ELSE next)
+        ELSE DecodeFrom(b, hi, target, labels, size, hops + 1, IF next = -1 THEN pos + 2 ELSE next)
     ELSE IF c >= 64 THEN NErr("reserved-label-type")
     ELSE IF c > MaxLabel THEN NErr("label-too-long")
-    ELSE IF pos + 1 + c > Len(b) THEN NErr("truncated")
+    ELSE IF pos + 1 + c > lim THEN NErr("truncated")
     ELSE IF size + 1 + c + 1 > MaxName THEN NErr("name-too-long")
-    ELSE DecodeFrom(b, pos + 1 + c, Append(labels, SubSeq(b, pos + 2, pos + 1 + c)),
+    ELSE DecodeFrom(b, hi, pos + 1 + c, Append(labels, SubSeq(b, pos + 2, pos + 1 + c)),
                     size + 1 + c, hops, next)
 
-RefDecodeName(b, at) == DecodeFrom(b, at, <<>>, 0, 0, -1)
+RefDecodeName(b, at) == DecodeFrom(b, Len(b), at, <<>>, 0, 0, -1)
+RefDecodeNameIn(b, at, hi) == DecodeFrom(b, hi, at, <<>>, 0, 0, -1)
 
 \* skip a name's in-place bytes without expanding it (used by the envelope walker):
 \* the cursor after the root label or after the first pointer; -1 if malformed in place
